@@ -49,6 +49,7 @@ import collections.abc
 import itertools
 import numbers
 import os
+import typing
 from dataclasses import dataclass
 from typing import Annotated, ForwardRef, List, Literal, NewType, Optional, Union
 
@@ -927,7 +928,60 @@ def compare(kind, tree, ref: Ref, by_idx, status, got, got_log, logged, datum, o
     return ok, (None if ok else _log_diff(got_log, ref_log, optional)), rep
 
 
+# ------------------------------------------------------------------------------------ validator(): a chained loader in disguise
+def validator_cases():
+    for chain in ("default", "first", "last"):
+        for target in ("int", "field", "list_item"):
+            for ok in (True, False):
+                yield {"validator": True, "chain": chain, "target": target, "passes": ok}
+
+
+def check_validator(ctx: runner.Ctx, case):
+    """validator(pred, func, error, chain) is documented as a loader chained with ``chain`` (default Chain.LAST): under FIRST the
+    check sees the raw datum before the next loader, under LAST the next loader's result."""
+    import dataclasses as dc  # noqa: PLC0415
+
+    import adaptix  # noqa: PLC0415
+    log = []
+    holder = dc.make_dataclass("VHolder", [("v", int), ("items", typing.List[int])])
+
+    def check(x):
+        log.append(("validator", x))
+        return case["passes"]
+
+    def plus100(x):
+        log.append(("loader", x))
+        return x + 100
+    pred = {"int": int, "field": adaptix.P[holder].v, "list_item": adaptix.P[holder].items[int]}[case["target"]]
+    kw = {} if case["chain"] == "default" else {"chain": adaptix.Chain.FIRST if case["chain"] == "first" else adaptix.Chain.LAST}
+    retort = adaptix.Retort(recipe=[adaptix.validator(pred, check, "rejected by the validator", **kw),
+                                    adaptix.loader(pred, plus100)])
+    ctx.case(["validator", case], True, sample=case, labels=["part:validator_chain", f"validator_chain:{case['chain']}"])
+    datum = 5
+    try:
+        if case["target"] == "int":
+            got = ("ok", retort.load(datum, int))
+        else:
+            obj = retort.load({"v": datum, "items": [datum]}, holder)
+            got = ("ok", obj.v if case["target"] == "field" else obj.items[0])
+    except LoadError:
+        got = ("load_error",)
+    first = case["chain"] == "first"
+    exp_log = [("validator", 5), ("loader", 5)] if first else [("loader", 5), ("validator", 105)]
+    if not case["passes"]:
+        exp_log = exp_log[:1] if first else exp_log
+    exp = ("ok", 105) if case["passes"] else ("load_error",)
+    mine = [e for e in log if e[1] in (5, 105)]
+    # the untargeted positions of the holder go through no validator; only the targeted datum is logged by construction
+    if got != exp or mine != exp_log:
+        ctx.violation("validator_chain", (case["chain"], case["target"]), case,
+                      f"validator(.., chain={case['chain']}) before loader(.., +100) on {case['target']}: result {got!r} (expected "
+                      f"{exp!r}), calls {mine!r} (expected {exp_log!r})")
+
+
 def check_case(ctx: runner.Ctx, case):  # noqa: C901, PLR0911, PLR0912, PLR0915
+    if case.get("validator"):
+        return check_validator(ctx, case)
     direction, req, logged = case["dir"], case["req"], case.get("logged", True)
     plan = Plan(case)
     top = plan.reference_ctx()
@@ -1675,6 +1729,8 @@ def explore(ctx: runner.Ctx):
         for case in FIXED:
             ctx.label("src:fixed")
             check_case(ctx, case)
+        for case in validator_cases():
+            runner.guarded(ctx, lambda c: check_case(ctx, c), case)
     # thorough: the longest length leaves out List[FR] (same reference behaviour as FR) to keep the run <= ~10 min
     skip = ("List[FR]",) if thorough else ()
     note = f"; at the longest length without the request {skip[0]}" if skip else ""
